@@ -42,7 +42,26 @@ impl Args {
     }
 }
 
+/// A logger that renders every record it is given (and throws the text away): an application that enables logging makes
+/// the crate evaluate the arguments of its warn!/error! calls, which is code like any other.
+struct RenderingLogger;
+
+impl log::Log for RenderingLogger {
+    fn enabled(&self, _m: &log::Metadata) -> bool {
+        true
+    }
+    fn log(&self, r: &log::Record) {
+        let s = format!("{} {}", r.target(), r.args());
+        std::hint::black_box(s.len());
+    }
+    fn flush(&self) {}
+}
+
+static LOGGER: RenderingLogger = RenderingLogger;
+
 fn main() {
+    let _ = log::set_logger(&LOGGER);
+    log::set_max_level(log::LevelFilter::Warn);
     let argv: Vec<String> = std::env::args().collect();
     if argv.len() < 2 {
         eprintln!("usage: fatfs-mon <mode> [--key value]...");
